@@ -61,15 +61,16 @@ Portable(c) == c \in 32..126 \/ c \in {9, 11, 12}
 
 ---------------------------------------------------------------------------
 VARIABLES r,      \* record being read
-          p,      \* next raw position in the text (1-based)
-          la,     \* character produced by a trigraph and not yet consumed, or -1
+          c,      \* current character after phase 1 (EOF = -1 behind the text)
+          p,      \* raw position behind c (1-based): the next unread source character
+          tri,    \* TRUE iff c was produced by a trigraph (it cannot start another one)
           mode,   \* scanner mode
           acc, nd,\* value / digit count of the numeric escape being read
           k, m,   \* bytes produced so far; index of the first mismatch with expect
           cc,     \* characters in the current character constant (kinds chr/arr)
           nl,     \* 1 once a literal / constant has been closed
           v       \* verdict
-vars == <<r, p, la, mode, acc, nd, k, m, cc, nl, v>>
+vars == <<r, c, p, tri, mode, acc, nd, k, m, cc, nl, v>>
 
 Rec == Records[r]
 T == Rec.text
@@ -78,14 +79,14 @@ K == Rec.kind
 Q == IF K = "str" THEN 34 ELSE 39            \* the delimiter of this kind
 
 Raw(i) == IF i <= Len(T) THEN T[i] ELSE EOF
-HasTri == la < 0 /\ Raw(p) = 63 /\ Raw(p + 1) = 63 /\ TriOf(Raw(p + 2)) >= 0
-Cur == IF la >= 0 THEN la ELSE Raw(p)         \* current character after phase 1
-After == IF la >= 0 THEN p ELSE p + 1         \* raw position behind Cur
-HasSplice == ~HasTri /\ Cur = 92 /\ Raw(After) = 10
-Ready == v = "run" /\ ~HasTri /\ ~HasSplice   \* Cur is a phase-2 character
+(* phase 1: c = '?' read from the text, followed by '?' and one of the nine characters *)
+HasTri == c = 63 /\ ~tri /\ Raw(p) = 63 /\ TriOf(Raw(p + 1)) >= 0
+(* phase 2: a backslash (possibly written ??/) immediately followed by new-line *)
+HasSplice == c = 92 /\ Raw(p) = 10
+Ready == v = "run" /\ ~HasTri /\ ~HasSplice   \* c is a phase-2 character
 
-Consume == la' = -1 /\ p' = After
-Stay == UNCHANGED <<la, p>>
+Consume == c' = Raw(p) /\ p' = p + 1 /\ tri' = FALSE
+Stay == UNCHANGED <<c, p, tri>>
 Emit(b) == /\ k' = k + 1
            /\ m' = IF m = 0 /\ (k + 1 > Len(E) \/ E[k + 1] # b) THEN k + 1 ELSE m
            /\ cc' = IF K = "str" THEN 0 ELSE IF cc = 0 THEN 1 ELSE 2
@@ -94,39 +95,40 @@ NoEmit == UNCHANGED <<k, m, cc>>
 StartMode(kind) == IF kind = "str" THEN "gap" ELSE IF kind = "chr" THEN "elt" ELSE "pre"
 
 Init == /\ r \in 1..N
-        /\ p = 1 /\ la = -1 /\ mode = StartMode(Records[r].kind)
+        /\ c = (IF Len(Records[r].text) >= 1 THEN Records[r].text[1] ELSE EOF)
+        /\ p = 2 /\ tri = FALSE /\ mode = StartMode(Records[r].kind)
         /\ acc = 0 /\ nd = 0 /\ k = 0 /\ m = 0 /\ cc = 0 /\ nl = 0 /\ v = "run"
 
 ---------------------------------------------------------------------------
-(* guards of the scanner steps (Ready is implied by the actions) *)
+(* guards of the scanner steps; the actions add Ready *)
 PunctNext == IF K # "arr" THEN ""
-             ELSE IF mode = "pre" /\ Cur = 123 THEN "elt"
-             ELSE IF mode = "sep" /\ Cur = 44 THEN "elt"
-             ELSE IF mode = "sep" /\ Cur = 125 THEN "tail"
-             ELSE IF mode = "elt" /\ nl = 1 /\ Cur = 125 THEN "tail"   \* trailing comma
+             ELSE IF mode = "pre" /\ c = 123 THEN "elt"
+             ELSE IF mode = "sep" /\ c = 44 THEN "elt"
+             ELSE IF mode = "sep" /\ c = 125 THEN "tail"
+             ELSE IF mode = "elt" /\ nl = 1 /\ c = 125 THEN "tail"   \* trailing comma
              ELSE ""
-OctNext == acc * 8 + (Cur - 48)
-HexNext == acc * 16 + HexVal(Cur)
-Accepting == \/ K = "str" /\ mode = "gap" /\ nl = 1
-             \/ K # "str" /\ mode = "tail"
+OctNext == acc * 8 + (c - 48)
+HexNext == acc * 16 + HexVal(c)
+Accepting == \/ mode = "gap" /\ nl = 1 /\ K = "str"
+             \/ mode = "tail" /\ K # "str"
 
-G_SkipWs     == mode \in Outside /\ IsWs(Cur)
-G_OpenQuote  == mode \in {"gap", "elt"} /\ Cur = Q
-G_Punct      == mode \in Outside /\ PunctNext # ""
-G_CloseQuote == mode = "in" /\ Cur = Q /\ (K = "str" \/ cc = 1)
-G_Plain      == mode = "in" /\ Cur \notin {Q, 92} /\ Portable(Cur)
-G_NonPort    == \/ mode = "in" /\ Cur \notin {Q, 92, 10, EOF} /\ ~Portable(Cur)
-                \/ mode = "esc" /\ Cur \in {117, 85}             \* \u \U: value depends on the execution charset
-                \/ mode = "in" /\ Cur = Q /\ K # "str" /\ cc = 2    \* multi-character constant
-G_Backslash  == mode = "in" /\ Cur = 92
-G_SimpleEsc  == mode = "esc" /\ SimpleOf(Cur) >= 0
-G_OctStart   == mode = "esc" /\ IsOct(Cur)
-G_HexStart   == mode = "esc" /\ Cur = 120
-G_OctDigit   == mode = "oct" /\ IsOct(Cur) /\ OctNext <= 255
-G_OctEnd     == mode = "oct" /\ ~IsOct(Cur)
-G_HexDigit   == mode = "hex" /\ HexVal(Cur) >= 0 /\ HexNext <= 255
-G_HexEnd     == mode = "hex" /\ HexVal(Cur) < 0 /\ nd = 1
-G_Finish     == Cur = EOF /\ Accepting
+G_SkipWs     == mode \in Outside /\ IsWs(c)
+G_OpenQuote  == mode \in {"gap", "elt"} /\ c = Q
+G_Punct      == mode \in Outside /\ c \in {123, 44, 125} /\ PunctNext # ""
+G_CloseQuote == mode = "in" /\ c = Q /\ (K = "str" \/ cc = 1)
+G_Plain      == mode = "in" /\ c # 92 /\ Portable(c) /\ c # Q
+G_NonPort    == \/ mode = "in" /\ ~Portable(c) /\ c \notin {10, EOF}
+                \/ mode = "esc" /\ c \in {117, 85}                 \* \u \U: value depends on the execution charset
+                \/ mode = "in" /\ cc = 2 /\ c = Q /\ K # "str"       \* multi-character constant
+G_Backslash  == mode = "in" /\ c = 92
+G_SimpleEsc  == mode = "esc" /\ SimpleOf(c) >= 0
+G_OctStart   == mode = "esc" /\ IsOct(c)
+G_HexStart   == mode = "esc" /\ c = 120
+G_OctDigit   == mode = "oct" /\ IsOct(c) /\ OctNext <= 255
+G_OctEnd     == mode = "oct" /\ ~IsOct(c)
+G_HexDigit   == mode = "hex" /\ HexVal(c) >= 0 /\ HexNext <= 255
+G_HexEnd     == mode = "hex" /\ HexVal(c) < 0 /\ nd = 1
+G_Finish     == c = EOF /\ Accepting
 
 Guards == <<G_SkipWs, G_OpenQuote, G_Punct, G_CloseQuote, G_Plain, G_NonPort, G_Backslash,
             G_SimpleEsc, G_OctStart, G_HexStart, G_OctDigit, G_OctEnd, G_HexDigit, G_HexEnd,
@@ -134,94 +136,99 @@ Guards == <<G_SkipWs, G_OpenQuote, G_Punct, G_CloseQuote, G_Plain, G_NonPort, G_
 RECURSIVE CountTrue(_, _)
 CountTrue(s, i) == IF i > Len(s) THEN 0 ELSE (IF s[i] THEN 1 ELSE 0) + CountTrue(s, i + 1)
 NEnabled == CountTrue(Guards, 1)
+AnyGuard == \/ G_SkipWs \/ G_OpenQuote \/ G_Punct \/ G_CloseQuote \/ G_Plain \/ G_NonPort \/ G_Backslash
+            \/ G_SimpleEsc \/ G_OctStart \/ G_HexStart \/ G_OctDigit \/ G_OctEnd \/ G_HexDigit \/ G_HexEnd
+            \/ G_Finish
 
+(* non-ok verdicts are published: record id, verdict, bytes read, first mismatch, *)
+(* position of the current character in the text and the character itself          *)
 Publish(verdict) ==
   IF verdict = "ok" THEN TRUE
-  ELSE PrintT("@@" \o ToJson([id |-> Rec.id, v |-> verdict, k |-> k, m |-> m, p |-> p]))
+  ELSE PrintT("@@" \o ToJson([id |-> Rec.id, v |-> verdict, k |-> k, m |-> m, p |-> p - 1, c |-> c]))
 
 ---------------------------------------------------------------------------
 (* phases 1 and 2 *)
 Trigraph == /\ v = "run" /\ HasTri
-            /\ la' = TriOf(Raw(p + 2)) /\ p' = p + 3
+            /\ c' = TriOf(Raw(p + 1)) /\ p' = p + 2 /\ tri' = TRUE
             /\ UNCHANGED <<r, mode, acc, nd, k, m, cc, nl, v>>
 
 Splice == /\ v = "run" /\ HasSplice
-          /\ la' = -1 /\ p' = After + 1
+          /\ c' = Raw(p + 1) /\ p' = p + 2 /\ tri' = FALSE
           /\ UNCHANGED <<r, mode, acc, nd, k, m, cc, nl, v>>
 
 (* between literals *)
-SkipWs == /\ Ready /\ G_SkipWs /\ Consume
+SkipWs == /\ G_SkipWs /\ Ready /\ Consume
           /\ UNCHANGED <<r, mode, acc, nd, k, m, cc, nl, v>>
 
-OpenQuote == /\ Ready /\ G_OpenQuote /\ Consume
+OpenQuote == /\ G_OpenQuote /\ Ready /\ Consume
              /\ mode' = "in" /\ cc' = 0
              /\ UNCHANGED <<r, acc, nd, k, m, nl, v>>
 
-Punct == /\ Ready /\ G_Punct /\ Consume
+Punct == /\ G_Punct /\ Ready /\ Consume
          /\ mode' = PunctNext
          /\ UNCHANGED <<r, acc, nd, k, m, cc, nl, v>>
 
 (* inside a literal *)
-CloseQuote == /\ Ready /\ G_CloseQuote /\ Consume
+CloseQuote == /\ G_CloseQuote /\ Ready /\ Consume
               /\ mode' = (IF K = "str" THEN "gap" ELSE IF K = "chr" THEN "tail" ELSE "sep")
               /\ nl' = 1
               /\ UNCHANGED <<r, acc, nd, k, m, cc, v>>
 
-Plain == /\ Ready /\ G_Plain /\ Consume /\ Emit(Cur)
+Plain == /\ G_Plain /\ Ready /\ Consume /\ Emit(c)
          /\ UNCHANGED <<r, mode, acc, nd, nl, v>>
 
-Backslash == /\ Ready /\ G_Backslash /\ Consume /\ NoEmit
+Backslash == /\ G_Backslash /\ Ready /\ Consume /\ NoEmit
              /\ mode' = "esc"
              /\ UNCHANGED <<r, acc, nd, nl, v>>
 
-SimpleEsc == /\ Ready /\ G_SimpleEsc /\ Consume /\ Emit(SimpleOf(Cur))
+SimpleEsc == /\ G_SimpleEsc /\ Ready /\ Consume /\ Emit(SimpleOf(c))
              /\ mode' = "in"
              /\ UNCHANGED <<r, acc, nd, nl, v>>
 
-OctStart == /\ Ready /\ G_OctStart /\ Consume /\ NoEmit
-            /\ mode' = "oct" /\ acc' = Cur - 48 /\ nd' = 1
+OctStart == /\ G_OctStart /\ Ready /\ Consume /\ NoEmit
+            /\ mode' = "oct" /\ acc' = c - 48 /\ nd' = 1
             /\ UNCHANGED <<r, nl, v>>
 
 (* second or third octal digit; the third one completes the escape *)
-OctDigit == /\ Ready /\ G_OctDigit /\ Consume
+OctDigit == /\ G_OctDigit /\ Ready /\ Consume
             /\ IF nd = 2 THEN Emit(OctNext) /\ mode' = "in" /\ acc' = 0 /\ nd' = 0
                          ELSE NoEmit /\ mode' = "oct" /\ acc' = OctNext /\ nd' = 2
             /\ UNCHANGED <<r, nl, v>>
 
 (* a non-octal character ends the escape and is then read on its own *)
-OctEnd == /\ Ready /\ G_OctEnd /\ Stay /\ Emit(acc)
+OctEnd == /\ G_OctEnd /\ Ready /\ Stay /\ Emit(acc)
           /\ mode' = "in" /\ acc' = 0 /\ nd' = 0
           /\ UNCHANGED <<r, nl, v>>
 
-HexStart == /\ Ready /\ G_HexStart /\ Consume /\ NoEmit
+HexStart == /\ G_HexStart /\ Ready /\ Consume /\ NoEmit
             /\ mode' = "hex" /\ acc' = 0 /\ nd' = 0
             /\ UNCHANGED <<r, nl, v>>
 
 (* greedy: every following hex digit belongs to the escape *)
-HexDigit == /\ Ready /\ G_HexDigit /\ Consume /\ NoEmit
+HexDigit == /\ G_HexDigit /\ Ready /\ Consume /\ NoEmit
             /\ acc' = HexNext /\ nd' = 1
             /\ UNCHANGED <<r, mode, nl, v>>
 
-HexEnd == /\ Ready /\ G_HexEnd /\ Stay /\ Emit(acc)
+HexEnd == /\ G_HexEnd /\ Ready /\ Stay /\ Emit(acc)
           /\ mode' = "in" /\ acc' = 0 /\ nd' = 0
           /\ UNCHANGED <<r, nl, v>>
 
 (* verdicts *)
-Finish == /\ Ready /\ G_Finish
+Finish == /\ G_Finish /\ Ready
           /\ v' = (IF m = 0 /\ k = Len(E) THEN "ok" ELSE "bad")
           /\ Publish(v')
-          /\ UNCHANGED <<r, p, la, mode, acc, nd, k, m, cc, nl>>
+          /\ UNCHANGED <<r, c, p, tri, mode, acc, nd, k, m, cc, nl>>
 
-NonPortable == /\ Ready /\ G_NonPort
+NonPortable == /\ G_NonPort /\ Ready
                /\ v' = "np" /\ Publish("np")
-               /\ UNCHANGED <<r, p, la, mode, acc, nd, k, m, cc, nl>>
+               /\ UNCHANGED <<r, c, p, tri, mode, acc, nd, k, m, cc, nl>>
 
 (* nothing else applies: unterminated literal, raw new-line in a literal,    *)
 (* unknown escape, \x without digits, numeric escape out of range, stray     *)
 (* text between literals, empty character constant                           *)
-Reject == /\ Ready /\ NEnabled = 0
+Reject == /\ v = "run" /\ ~AnyGuard /\ Ready
           /\ v' = "mal" /\ Publish("mal")
-          /\ UNCHANGED <<r, p, la, mode, acc, nd, k, m, cc, nl>>
+          /\ UNCHANGED <<r, c, p, tri, mode, acc, nd, k, m, cc, nl>>
 
 Done == v # "run" /\ UNCHANGED vars
 
@@ -231,16 +238,17 @@ Next == \/ Trigraph \/ Splice \/ SkipWs \/ OpenQuote \/ Punct \/ CloseQuote \/ P
 Spec == Init /\ [][Next]_vars
 
 ---------------------------------------------------------------------------
-TypeOK == /\ r \in 1..N /\ p \in 1..(Len(T) + 1) /\ la \in -1..255
+TypeOK == /\ r \in 1..N /\ c \in -1..256 /\ p \in 2..(Len(T) + 2) /\ tri \in BOOLEAN
           /\ mode \in Modes /\ acc \in 0..255 /\ nd \in 0..2
-          /\ k \in Nat /\ m \in 0..k /\ cc \in 0..2 /\ nl \in 0..1 /\ v \in Verdicts
+          /\ k >= 0 /\ m \in 0..k /\ cc \in 0..2 /\ nl \in 0..1 /\ v \in Verdicts
 
-(* the reader is a function: in every running state exactly one step applies *)
+(* the reader is a function: in every running state at most one step applies *)
+(* (Reject is by definition the step taken when none of them does)           *)
 Deterministic == Ready => NEnabled <= 1
 (* every value byte costs at least one source character (plus the opening delimiter) *)
 Consumes == k < p
 (* "ok" is only ever said of a completely read text whose value is expect *)
-OkIsEqual == v = "ok" => (m = 0 /\ k = Len(E) /\ p = Len(T) + 1 /\ la = -1)
+OkIsEqual == v = "ok" => (m = 0 /\ k = Len(E) /\ c = EOF /\ p = Len(T) + 2)
 (* numeric escapes never leave a pending value outside their modes *)
 AccIdle == mode \notin {"oct", "hex"} => (acc = 0 /\ nd = 0)
 =============================================================================
